@@ -83,6 +83,8 @@ BASES = {
                           (1,), (1, -1), 3, 4),
     # heavy weights: p-values far below 1e-10 are distinct sort keys, not ties
     "rows_cat_x_cat_heavy": (S.schema2("rows_cat_x_cat_heavy", A3, B3, weighted=True), (40, 90), (None,), 3, 3),
+    # a datetime rows dimension: fixed lists and hides are written with its numeric element ids
+    "rows_datetime_x_cat": (S.schema2("rows_datetime_x_cat", S.enum("e", "datetime", 3), B3), (1,), (None,), 2, 3),
     "rows_cat_x_mr": (S.schema2("rows_cat_x_mr", A3, M2), (1,), (None,), 2, 2),
     "rows_mr_x_cat": (S.schema2("rows_mr_x_cat", M2, B3), (1,), (None,), 2, 2),
     "cols_cat_x_cat": (S.schema2("cols_cat_x_cat", B3, A3, weighted=True), (1, 2), (None,), 2, 2),
@@ -140,6 +142,11 @@ def _orders(name, tier):
             add({"type": "marginal", "marginal": mg})
         add({"type": "label"})
         add({"type": "no_such_type"})
+    elif name == "rows_datetime_x_cat":
+        for m in ("col_percent", "count_unweighted", "row_percent"):
+            add({"type": "opposing_element", "element_id": 2, "measure": m})
+        add({"type": "label"})
+        add({"type": "marginal", "marginal": "unweighted_base"})
     elif name == "rows_cat_x_mr":
         for m in ("col_percent", "count_unweighted", "row_percent", "z_score", "table_base_unweighted"):
             add({"type": "opposing_element", "element_id": "m_2", "measure": m})
@@ -218,6 +225,8 @@ def _transforms(space, order, hidden):
     if svar.kind == "CAT":
         t[sdim]["insertions"] = [r_plain, r_diff]
         ids = svar.valid_ids
+    elif svar.kind == "ENUM":
+        ids = svar.valid_ids
     else:
         ids = [it["alias"] for it in svar.items]
     if not strand:
@@ -227,7 +236,11 @@ def _transforms(space, order, hidden):
     base_t = {k: dict(v) for k, v in t.items()}
     if order is not None:
         order = copy.deepcopy(order)
-        if svar.kind != "CAT" and order.get("fixed"):
+        if svar.kind == "ENUM" and order.get("fixed"):
+            # element ids of the datetime dimension are 0-based: shift the category-style ids 1..3 of the alphabet
+            order["fixed"] = {k: [x - 1 if isinstance(x, int) and x != STALE else x for x in v]
+                              for k, v in order["fixed"].items()}
+        elif svar.kind != "CAT" and order.get("fixed"):
             # fixed lists are written with category ids; on an array dimension name the
             # items by alias (other spellings are C19's subject)
             order["fixed"] = {k: ["m_%s" % x for x in v] for k, v in order["fixed"].items()}
